@@ -122,6 +122,18 @@ class AutoW(AutoParameterObject):
         self.workers = workers
         self.batch_size = batch_size
 
+class AutoRegressor(AutoParameterObject):
+    """a base class whose constructor its subclasses inherit"""
+    def __init__(self, alpha, max_iter=100):
+        self.alpha = alpha
+        self.max_iter = max_iter
+
+class AutoRidge(AutoRegressor):
+    pass
+
+class AutoLasso(AutoRegressor):
+    pass
+
 class User(ParameterObject):
     def __init__(self, text):
         self.text = text
@@ -135,7 +147,7 @@ class Plain:
         self.kwargs = kwargs
 '''
     exec(src, m.__dict__)
-    for c in ('AutoA', 'AutoB', 'AutoC', 'Hooked', 'AutoS', 'AutoK', 'AutoV', 'AutoP', 'AutoD', 'AutoX', 'AutoW', 'User', 'Plain'):
+    for c in ('AutoA', 'AutoB', 'AutoC', 'Hooked', 'AutoS', 'AutoK', 'AutoV', 'AutoP', 'AutoD', 'AutoX', 'AutoW', 'AutoRegressor', 'AutoRidge', 'AutoLasso', 'User', 'Plain'):
         getattr(m, c).__module__ = name
     sys.modules[name] = m
     return m
@@ -153,6 +165,7 @@ AUTO_SIGS = {
                   dropdef=['rate', 'flag', 'opts']),
     'AutoX': dict(params=[('source', None), ('workers', [1]), ('batch_size', [8])], ignore=['verbose', 'debug', 'workers', 'batch_size'], dropdef=[]),
     'AutoW': dict(params=[('lr', None), ('workers', [1]), ('batch_size', [8])], ignore=['verbose', 'debug'], dropdef=[]),
+    **{c: dict(params=[('alpha', None), ('max_iter', [100])], ignore=['verbose', 'debug'], dropdef=[]) for c in ('AutoRegressor', 'AutoRidge', 'AutoLasso')},
     'AutoC': dict(params=[('step', None), ('debug_max_rows', [0]), ('verbose_labels', [False]), ('debug', [0])],
                   ignore=['verbose', 'debug'], dropdef=[]),
 }
